@@ -188,6 +188,8 @@ def gen_project(rng, k=None):
             if pick(rng, k.p_leave):
                 a = day()
                 group["leaves"] = [["annual", a, None if pick(rng, 0.5) else a + rng.choice([1, 2]) * D]]
+            if pick(rng, k.p_eff):
+                group["eff"] = rng.choice(k.eff)            # members without an efficiency of their own inherit it
         res.append(group)
     for i in range(nres):
         r = {"id": f"r{i}"}
